@@ -628,10 +628,12 @@ impl PartialEq<Self> for XType {
                     && a.params
                         .iter()
                         .zip(b.params.iter())
-                        .all(|(a, b)| a.type_.eq(&b.type_))
+                        .all(|(a, b)| a.type_.eq(&b.type_) && a.required == b.required)
+                    && a.ret.eq(&b.ret)
             }
             (Self::XCallable(ref a), Self::XFunc(ref b)) => {
                 b.generic_params.is_none()
+                    && b.params.iter().all(|p| p.required)
                     && a.param_types == b.params.iter().map(|p| p.type_.clone()).collect::<Vec<_>>()
                     && a.return_type.eq(&b.ret)
             }
